@@ -36,6 +36,12 @@ CLAIMED["C02"] = ("E-SEQ", ESEQ + "; ownership bijection in every state, attribu
     "Every history up to the bound of 2-3 connections contending for nicknames x/y/z (NICK/USER/PASS/CAP/QUIT/EOF, acts by registered and by unregistered or refused connections) next to a registered witness; a refused or incomplete registration changes nothing; users <-> owning connections is a bijection in every state; every owner stays reachable and speaks under its own prefix after every step.", NOTE)
 CLAIMED["C03"] = ("E-SEQ", ESEQ + "; 7 configurations; gated-command battery in every pre-registration state", "DESIGN.md §4 C03",
     "For 7 password/user/mask configurations every order and repetition of PASS/NICK/USER/CAP/AUTHENTICATE/QUIT up to the bound on a fresh connection; in every pre-registration state 30 gated commands must each get exactly 451 and change/reveal nothing; 001 iff the Spec registration machine completes; wrong/missing password => 464, closed, no user.", NOTE)
+CLAIMED["C06"] = ("E-SEQ", ESEQ + "; erase-differential; endings injected in every reachable state incl. virtual-clock ping timeouts and a KILL raced against an in-flight line", "DESIGN.md §4 C06",
+    "In every reachable state of a victim's history (memberships, ranks, +i/+w, away, operator, invitations both ways) the session ends by QUIT, EOF, EOF mid-line, invalid bytes, KILL (also raced), ping timeout (alone / several at once); the post-state must equal the pre-state with the user erased and nothing else changed; counter = live connections; survivors' views forget the user, WHOWAS keeps it, the nick re-registers at once.", NOTE)
+CLAIMED["C11"] = ("E-SEQ", ESEQ + "; 12 operator/default-mode configurations", "DESIGN.md §4 C11",
+    "Per configuration every sequence up to the bound of OPER (right/wrong), MODE on own/foreign nicks with o/O/w/i and sign switches, NICK to/from the configured operator name, KILL/WALLOPS/STATS/DIE/SQUIT from every privilege level; the operator flag changes only as the statement allows, privileged commands act only for operators and exactly as stated.", NOTE)
+CLAIMED["C19"] = ("E-SEQ", ESEQ + "; LUSERS/ISON/USERHOST probes in every state; connection-slot scenario per max_connections", "DESIGN.md §4 C19",
+    "Every history up to the bound of registrations, +-i, OPER (repeated), -o/-O, AWAY, NICK, JOIN/PART, QUIT/EOF/KILL with LUSERS/ISON/USERHOST compared with recounts in every state; for max_connections 1..3 every pattern of connect/register/wrong password/invalid bytes/QUIT/EOF/KILL: never more than max served, counter = live connections, freed slots are served again.", NOTE)
 PENDING = {}
 
 def main():
